@@ -47,6 +47,11 @@ PROPERTIES = {
     units=[U('c08_json', 'c08_json.cpp', flavour='asan', libs=['-lpugixml'], quick=dict(cases=20000, shards=8, min_eval=50000), thorough=dict(cases=600000, shards=16, min_eval=1000000)),
            U('c08_xml', 'c08_xml.cpp', flavour='asan', cflags=['-I/usr/include/libxml2'], libs=['-lpugixml', '-lxml2'], quick=dict(cases=20000, shards=8, min_eval=50000), thorough=dict(cases=600000, shards=16, min_eval=1000000)),
            U('c01_kf', 'c01_kf.cpp', flavour='asan', libs=['-lpugixml'], args=['--prop', 'kf12*,kf13*,kf44*'], quick=dict(cases=60, shards=1, min_eval=10), thorough=dict(cases=600, shards=1, min_eval=10))]),
+ 'C19': dict(
+    level='exploration', exhaustive_claim=False,
+    rule='schedules of 2..4 threads x 2..10 operations out of 23 kinds (save / load through 4 archives from memory and string streams in 5 encodings, validation-failing and policy-skipping loads, std::pair, Convert::To of enums, numbers, ISO dates, UTF) on thread-local objects plus shared read-only source objects, input buffers, default options and enum tables; half of the schedules let every thread hammer the same kind of operation; oracles: ThreadSanitizer happens-before race detection over harness + library sources + header-only adapters, and equality of every result with a sequential run of the same schedule',
+    assumptions=TRUSTED + ['ThreadSanitizer flags a racy pair whenever both accesses occur in a run, independent of the order the scheduler chose; pairs that never occur in any generated schedule are not seen', 'the system libpugixml.so is not instrumented: races inside pugixml itself are only visible through differing results'],
+    units=[U('c19_threads', 'c19_threads.cpp', flavour='tsan', libs=['-lpugixml', '-lpthread'], quick=dict(cases=1200, shards=8, min_eval=4000, timeout=900), thorough=dict(cases=40000, shards=16, min_eval=100000, timeout=7200))]),
  'C20': dict(
     level='fault_enumeration', exhaustive_claim=False,
     rule='fault positions of generated scenarios (objects with 10 members / CSV rows of generated sizes; 4 archives; memory and 3 kinds of streams): every truncation length, every index k of "the k-th operator new throws" (once / from then on), every byte at which an input streambuf throws, every byte at which an output streambuf fails or throws (with and without the exception mask), CSV row-width mismatch at every row, ill-formed text under ThrowError; each case in a forked child: terminate, abort, sanitizer report, CPU budget or a leak at exit are failures',
